@@ -11,9 +11,18 @@ Command loops of `drv_c02` (core Lean only):
         cvtsi2ss32|cvtsi2ss64|cvtsi2sd32|cvtsi2sd64 <in> <out>          fild16|fild32|fild64 <in> <out80>
         ucomiss|ucomisd|fcomi <a> <b> <zf> <pf> <cf>                    cvtss2sd|fld32|fld64 <in> <out>   fchs <in> <out>
         roundnat <p> <n> <r>     (the rounding function itself against an independent implementation)
+        comiss|comisd <a> <b> <zf> <pf> <cf>      two63 32|64|80 <bits>   (the constants of the fp → unsigned long cells denote 2^63)
+        subss63|subsd63|fsub63 <a> <out>          (x − 2^63 is exact for 2^63 ≤ x < 2^64; fsub63 under PC = 11b)
+        fadd64 <v> <out80>                        (fildq of v ≥ 2^63, fadds 2^64, PC = 11b: the datum of v)
+        addss2|addsd2 <k> <out>                   (cvtsi2ss/sd of the signed k, added to itself: the datum of 2·round(k))
+        fstfld32|fstfld64 <x> <out>               (flds/fldl then fstps/fstpl, any control word: the same bits, unless NaN)
+        the integer → floating contracts (cvtsi2s*, fild*) are also compared bit for bit with `Ieee.ofInt32/64/80`
+  drv_c02 lit        `<byte at *end> <bytes of the token after end>`       → `float|double|ldouble strtof|strtod|strtold` | `invalid`
+        Model/FpLiteral.convertPpNumberFp over the regenerated suffix ladder: type and the libc function whose result is kept
 -/
 import ChibiVerif.Spec.FpuSpec
 import ChibiVerif.Model.FpCodegen
+import ChibiVerif.Model.FpLiteral
 
 namespace ChibiVerif.Driver.Fp
 open ChibiVerif.Gen.CommonType ChibiVerif.FpCodegen ChibiVerif.Asm ChibiVerif.Spec.Fpu
@@ -81,12 +90,45 @@ def truncCheck (n : Nat) (fmt : Nat) (i o : Nat) : String :=
   let want := (truncTo n (valOf fmt i)).toNat
   okIf (want == o) s!"{want}"
 
-/-- integer (given as the unsigned reading of `w` bits) → format with precision `p`: value and sign -/
+/-- the intended reading of `ofInt32/64/80`: the IEEE / x87 encoding of the rounded integer -/
+def ieeeOfInt (fmt : Nat) (v : Int) : Nat :=
+  if fmt = 32 then (Ieee.ofInt32 v).toNat else if fmt = 64 then (Ieee.ofInt64 v).toNat else (Ieee.ofInt80 v).toNat
+
+/-- integer (given as the unsigned reading of `w` bits) → format with precision `p`: value and sign, and the bits -/
 def ofIntCheck (w p fmt : Nat) (i o : Nat) : String :=
   let v : Int := (BitVec.ofNat w i).toInt
   let out := valOf fmt o
   let sign := o / 2 ^ (fmt - 1) % 2 = 1
-  okIf (out.toInt? == some (roundInt p v) && sign == decide (v < 0)) s!"value {roundInt p v}"
+  okIf (out.toInt? == some (roundInt p v) && sign == decide (v < 0) && o == ieeeOfInt fmt v) s!"value {roundInt p v} bits {ieeeOfInt fmt v}"
+
+/-- x − 2^63 exact: if the input's integral part t lies in [2^63, 2^64), the output's integral part is t − 2^63 -/
+def sub63Check (fmt : Nat) (a o : Nat) : String :=
+  match (valOf fmt a).trunc? with
+  | some t =>
+    if 9223372036854775808 ≤ t ∧ t < 18446744073709551616 then
+      okIf ((valOf fmt o).trunc? == some (t - 9223372036854775808)) s!"trunc {t - 9223372036854775808}"
+    else "ok"     -- outside the contract's hypothesis
+  | none => "ok"
+
+def two63Check (fmt : Nat) (bits : Nat) : String :=
+  let want : Val := if fmt = 32 then .fin false 8388608 40 else if fmt = 64 then .fin false 4503599627370496 11
+                    else .fin false 9223372036854775808 0
+  okIf (valOf fmt bits == want) s!"{repr want}"
+
+def ftyName : ChibiVerif.Gen.FpLiteral.FTy → String
+  | .ty_float => "float" | .ty_double => "double" | .ty_ldouble => "ldouble"
+
+def parserName : ChibiVerif.Gen.FpLiteral.Parser → String
+  | .strtof => "strtof" | .strtod => "strtod" | .strtold => "strtold"
+
+def litLine (line : String) : String :=
+  match (words line).map String.toNat? with
+  | [some sfx, some rest] =>
+    -- the three libc results do not influence the type / parser selection: any data will do
+    match ChibiVerif.FpLiteral.selectArm sfx ChibiVerif.Gen.FpLiteral.suffixArms with
+    | some (t, q) => if rest = 1 then s!"{ftyName t} {parserName q}" else "invalid"
+    | none => if rest = 0 then s!"{ftyName ChibiVerif.Gen.FpLiteral.defaultArm.1} {parserName ChibiVerif.Gen.FpLiteral.defaultArm.2}" else "invalid"
+  | _ => "bad"
 
 def flagsCheck (fmt : Nat) (a b zf pf cf : Nat) : String :=
   let r := Val.cmp (valOf fmt a) (valOf fmt b)
@@ -123,6 +165,23 @@ def contractLine (line : String) : String :=
     | "fld64", [some i, some o] => exactCheck 64 80 i o
     | "fchs", [some i, some o] => okIf ((BitVec.ofNat 80 i ^^^ (1#80 <<< 79)).toNat == o) "sign bit flipped"
     | "roundnat", [some p, some n, some r] => okIf (roundNat p n == r) s!"{roundNat p n}"
+    | "comiss", [some a, some b, some z, some p, some c] => flagsCheck 32 a b z p c
+    | "comisd", [some a, some b, some z, some p, some c] => flagsCheck 64 a b z p c
+    | "two63", [some f, some b] => two63Check f b
+    | "subss63", [some a, some o] => sub63Check 32 a o
+    | "subsd63", [some a, some o] => sub63Check 64 a o
+    | "fsub63", [some a, some o] => sub63Check 80 a o
+    | "fadd64", [some v, some o] =>
+        if 9223372036854775808 ≤ v ∧ v < 18446744073709551616 then okIf (o == ieeeOfInt 80 (v : Int)) s!"bits {ieeeOfInt 80 (v : Int)}"
+        else "ok"
+    | "addss2", [some k, some o] =>
+        let kv : Int := (BitVec.ofNat 64 k).toInt
+        if kv.natAbs < 2 ^ 63 then okIf (o == ieeeOfInt 32 (2 * roundInt 24 kv)) s!"bits {ieeeOfInt 32 (2 * roundInt 24 kv)}" else "ok"
+    | "addsd2", [some k, some o] =>
+        let kv : Int := (BitVec.ofNat 64 k).toInt
+        if kv.natAbs < 2 ^ 63 then okIf (o == ieeeOfInt 64 (2 * roundInt 53 kv)) s!"bits {ieeeOfInt 64 (2 * roundInt 53 kv)}" else "ok"
+    | "fstfld32", [some x, some o] => if (valOf 32 x).isNaN then "ok" else okIf (x == o) "the same bits"
+    | "fstfld64", [some x, some o] => if (valOf 64 x).isNaN then "ok" else okIf (x == o) "the same bits"
     | _, _ => "unknown"
   | [] => "unknown"
 
@@ -139,8 +198,9 @@ def main (args : List String) : IO UInt32 := do
   | "seq" :: _ => loop stdin seqLine
   | "ctype" :: _ => loop stdin ctypeLine
   | "contract" :: _ => loop stdin contractLine
+  | "lit" :: _ => loop stdin litLine
   | _ =>
-    IO.eprintln "usage: drv_c02 seq|ctype|contract"
+    IO.eprintln "usage: drv_c02 seq|ctype|contract|lit"
     return 2
 
 end ChibiVerif.Driver.Fp
